@@ -497,7 +497,8 @@ func ConnReplay(msgs []*Exp, rng *rand.Rand, j *sess.Journal, tracking bool) ([]
 		}
 		mu.Unlock()
 	})
-	var stream []byte
+	// what the server announces about itself (005) has no bearing on how a message parses
+	stream := []byte(":irc.example.net 005 me CHANTYPES=# PREFIX=(ov)@+ CHANMODES=b,k,l,imnpst NICKLEN=9 :are supported by this server\r\n")
 	for i, e := range msgs {
 		stream = append(stream, e.Raw...)
 		stream = append(stream, "\r\n"...)
